@@ -106,13 +106,16 @@ def prove_le(ctx, rule, construct, facts, lhs, rhs, what, loc):
         ctx.violation(rule, construct, "%s: no dominating guard bounds %r <= %r (inputs are unconstrained)"
                       % (what, lhs, rhs), loc, witness={"obligation": "%r <= 0" % L})
     else:
-        ctx.undecided(rule, construct, "%s: cannot decide %r <= %r" % (what, lhs, rhs), loc)
+        undecided(ctx, rule, construct, "%s: cannot decide %r <= %r" % (what, lhs, rhs), loc)
     return False
 
 
 def eq(ctx, rule, construct, got, want, what, loc):
     if got is None or isinstance(got, Opq):
-        ctx.undecided(rule, construct, "%s: value not interpretable (%r)" % (what, got), loc)
+        undecided(ctx, rule, construct, "%s: value not interpretable (%r)" % (what, got), loc)
+        return False
+    if SOFT["on"] and isinstance(got, Lin) and got != want and not is_free(got - want):
+        undecided(ctx, rule, construct, "%s: %r vs %r involves derived symbols" % (what, got, want), loc)
         return False
     ok = got == want
     ctx.check(ok, rule, construct, "%s == %r" % (what, want), "%s is %r, expected %r" % (what, got, want), loc)
@@ -124,6 +127,126 @@ def split_parts(v):
     if isinstance(v, Tup) and len(v.items) == 2:
         return v.items[0], v.items[1]
     return None, None
+
+
+SOFT = {"on": False}
+
+
+def undecided(ctx, rule, construct, why, loc):
+    """UNDECIDED, unless the bounded-grid oracle already decided this scenario (then information only)."""
+    if SOFT["on"]:
+        ctx.info("%s %s: symbolic step inconclusive (%s); decided by the bounded grid" % (rule, construct, why))
+    else:
+        ctx.undecided(rule, construct, why, loc)
+
+
+GRID_FH = ([1], [2], [1, 3], [2, 5])
+
+
+def spec_cutoffs(n, w, step, fh, iw):
+    """Specification: cutoffs of the window splitters with start_with_window=True."""
+    out = []
+    fmax = max(fh)
+    if iw is not None:
+        c = iw - 1
+        if c + fmax > n - 1:
+            return None
+        out.append(("initial", c))
+        c = c + step
+    else:
+        c = w - 1
+    while c + fmax <= n - 1:
+        out.append(("loop", c))
+        c += step
+    return out
+
+
+def bounded_grid(ctx, repo, it, tag, sliding, iw, recs, loc):
+    """Concretise the abstract yield records on a grid of small instances and compare the yielded splits with the
+    specification.  Returns True (all instances agree), False (violation recorded) or None (not concretisable)."""
+    from ..absint import concrete
+    checked = 0
+    for n in range(2, 15):
+        for w in range(1, 6):
+            for step in range(1, 5):
+                for fh in GRID_FH:
+                    for iwv in ((None,) if not iw else range(w + 1, w + 4)):
+                        env = {"n": n, "w": w, "step": step, "fh[0]": fh[0], "fh[-1]": fh[-1], "len(fh)": len(fh)}
+                        if iwv is not None:
+                            env["iw"] = iwv
+                        spec = spec_cutoffs(n, w, step, fh, iwv)
+                        feasible = spec is not None and (w + max(fh) <= n) and (iwv is None or iwv + max(fh) <= n)
+                        got = []
+                        rejected = False
+                        try:
+                            for rec in recs:
+                                train, test = split_parts(rec.value)
+                                if not isinstance(train, Rng) or not isinstance(test, Vec) or test.base != "fh" or test.neg:
+                                    return None
+                                kind = "loop" if rec.loops else "initial"
+                                # guards of the trace (facts without loop variables)
+                                loopvars = set()
+                                for lp in rec.loops:
+                                    if lp.var is None:
+                                        return None
+                                    loopvars |= lp.var.symbols()
+                                for f, origin in rec.facts.items:
+                                    if f.symbols() & loopvars or origin.startswith("loop range"):
+                                        continue
+                                    try:
+                                        if concrete(it, f, env) > 0:
+                                            rejected = True
+                                    except KeyError:
+                                        pass
+                                if rejected:
+                                    break
+                                if not rec.loops:
+                                    vals = [dict(env)]
+                                else:
+                                    if len(rec.loops) != 1 or not isinstance(rec.loops[0].it, Rng):
+                                        return None
+                                    r = rec.loops[0].it
+                                    lo, hi, stp = (concrete(it, r.lo, env), concrete(it, r.hi, env), concrete(it, r.step, env))
+                                    if stp <= 0 or any(x.denominator != 1 for x in (lo, hi, stp)):
+                                        return None
+                                    var = list(rec.loops[0].var.symbols())[0]
+                                    vals = [dict(env, **{var: v}) for v in range(int(lo), int(hi), int(stp))]
+                                for e2 in vals:
+                                    tlo, thi = concrete(it, train.lo, e2), concrete(it, train.hi, e2)
+                                    off = concrete(it, test.off, e2)
+                                    got.append((kind, int(thi) - 1, (int(tlo), int(thi)), [int(off) + h for h in fh]))
+                        except KeyError:
+                            return None
+                        checked += 1
+                        if rejected:
+                            if feasible and spec:
+                                ctx.violation("R2", tag + ":bounded-grid", "a feasible configuration is rejected: n=%d window=%d step=%d fh=%s initial_window=%s "
+                                              "(specification yields cutoffs %s)" % (n, w, step, fh, iwv, [c for _, c in spec]), loc,
+                                              witness={"n": n, "w": w, "step": step, "fh": fh, "iw": iwv})
+                                return False
+                            continue
+                        if not feasible:
+                            if got:
+                                ctx.violation("R3", tag + ":bounded-grid", "an infeasible configuration is accepted and yields splits: n=%d window=%d step=%d fh=%s "
+                                              "initial_window=%s" % (n, w, step, fh, iwv), loc, witness={"n": n, "w": w, "step": step, "fh": fh, "iw": iwv})
+                                return False
+                            continue
+                        want = []
+                        for kind, c in spec:
+                            length = (iwv if kind == "initial" else w)
+                            lo = (c + 1 - length) if (sliding or kind == "initial") else 0
+                            want.append((kind, c, (lo, c + 1), [c + h for h in fh]))
+                        if [g[1:] for g in got] != [x[1:] for x in want]:
+                            ctx.violation("R2", tag + ":bounded-grid",
+                                          "yielded splits differ from the specification for n=%d window=%d step=%d fh=%s initial_window=%s: "
+                                          "yielded cutoffs %s, specified %s; first differing split: yielded %s, specified %s" % (
+                                              n, w, step, fh, iwv, [g[1] for g in got], [x[1] for x in want],
+                                              next((g for g, x in zip(got, want) if g[1:] != x[1:]), got[len(want):][:1] or "none"),
+                                              next((x for g, x in zip(got, want) if g[1:] != x[1:]), want[len(got):][:1] or "none")),
+                                          loc, witness={"n": n, "w": w, "step": step, "fh": fh, "iw": iwv})
+                            return False
+    ctx.ok("R2", tag + ":bounded-grid", "yielded splits equal the specification on %d concrete configurations (n<=14, window<=5, step<=4, 4 horizons)" % checked, loc)
+    return True
 
 
 def check_window_class(ctx, repo, cname):
@@ -162,6 +285,9 @@ def check_window_class(ctx, repo, cname):
         if len(recs) != want:
             ctx.violation("R1", tag + ":yields", "expected %d yield site(s) on this scenario, found %d" % (want, len(recs)), loc0)
             continue
+        SOFT["on"] = False
+        if sww:
+            SOFT["on"] = bounded_grid(ctx, repo, it, tag, sliding, bool(iw), recs, loc0) is not None
         wlen_attr = selfv.attrs.get("window_length")
         loop_rec = recs[-1]
         init_rec = recs[0] if iw else None
@@ -199,7 +325,7 @@ def check_window_class(ctx, repo, cname):
                      "last training position < first test position", loc)
             if kind == "loop":
                 if len(rec.loops) != 1 or not isinstance(rec.loops[0].it, Rng):
-                    ctx.undecided("R1", c + ":loop", "split loop is not a single arithmetic progression", loc)
+                    undecided(ctx, "R1", c + ":loop", "split loop is not a single arithmetic progression", loc)
                     continue
                 lp = rec.loops[0]
                 var = list(lp.var.symbols())[0]
@@ -225,10 +351,16 @@ def check_window_class(ctx, repo, cname):
                     eq(ctx, "R2", c + ":first-feasible", lp.it.lo, Lin.c(0), "first split point (start_with_window=False)", loc)
                 # last feasible: hi is the first infeasible split point
                 beyond = test.elem("last").subst({var: lp.it.hi})
-                ctx.check(f.entails((N - 1) - beyond + 1) is not None, "R2", c + ":last-feasible",
-                          "split point == range end would put the last test position at %r > n-1 (range end is tight)" % beyond,
-                          "range end %r is not the first infeasible split point (last test position there: %r)" % (lp.it.hi, beyond),
-                          loc, witness={"end": repr(lp.it.hi)})
+                lf = f.entails((N - 1) - beyond + 1) is not None
+                if not lf and SOFT["on"] and not is_free(beyond):
+                    lf = None
+                if lf is None:
+                    undecided(ctx, "R2", c + ":last-feasible", "range end involves derived symbols", loc)
+                else:
+                    ctx.check(lf, "R2", c + ":last-feasible",
+                              "split point == range end would put the last test position at %r > n-1 (range end is tight)" % beyond,
+                              "range end %r is not the first infeasible split point (last test position there: %r)" % (lp.it.hi, beyond),
+                              loc, witness={"end": repr(lp.it.hi)})
                 # guard tightness
                 gl = (W if not iw else IW) + FHL - N
                 sl = Facts([(x, o) for x, o in f.items if not o.startswith("loop range")]).slack(gl)
@@ -244,6 +376,17 @@ def check_window_class(ctx, repo, cname):
         filt_ok = bool(fst2.yields)
         for rec in fst2.yields:
             tr, te = split_parts(rec.value)
+            if isinstance(tr, Rng):
+                # no >= 0 filter on the training positions: the window start must be entailed non-negative
+                pr = rec.facts.entails(Lin.c(0) - tr.lo)
+                if pr is None:
+                    if is_free(tr.lo):
+                        ctx.violation("R3", "%s:train>=0" % tag, "training positions are not filtered to >= 0 and the window start %r can be negative "
+                                      "(negative positions index from the end of the series)" % tr.lo, locs)
+                    else:
+                        undecided(ctx, "R3", "%s:train>=0" % tag, "window start %r not decidable" % tr.lo, locs)
+                else:
+                    ctx.ok("R3", "%s:train>=0" % tag, "window start %r >= 0 entailed" % tr.lo, locs)
             for part, nm in ((tr, "train"), (te, "test")):
                 if isinstance(part, Filt):
                     good = part.op == ">=" and as_lin_val(part.bound) == Lin.c(0)
